@@ -35,6 +35,8 @@ type seamCounters struct {
 	cmp, mar, unm          int
 	failCmp, failMar, failUnm int
 	fired                  map[string]int
+	inCmp                  int  // depth of KeyCompare calls in progress
+	marOutsideCmpOnly      bool // count (and fail) only Marshal calls made outside any comparison
 }
 
 func (w *World) installCallbackFaults() {
@@ -43,6 +45,9 @@ func (w *World) installCallbackFaults() {
 	baseMar := w.cfg.MarshalFn()
 	baseUnm := w.cfg.UnmarshalFn()
 	mar := func(v interface{}) ([]byte, error) {
+		if sc.marOutsideCmpOnly && sc.inCmp > 0 {
+			return baseMar(v)
+		}
 		sc.mar++
 		if sc.failMar != 0 && sc.mar == sc.failMar {
 			sc.fired["marshal-fail"]++
@@ -65,7 +70,9 @@ func (w *World) installCallbackFaults() {
 			sc.fired["compare-fail"]++
 			return 0, ErrInjCompare
 		}
+		sc.inCmp++
 		c, err := baseCmp(a, b)
+		sc.inCmp--
 		if w.cfg.CmpScale != 0 {
 			c *= w.cfg.CmpScale
 		}
@@ -412,6 +419,7 @@ func (w *World) runFault() {
 		kind = "unmarshal-fail"
 	}
 	sigTail := op.K + "/" + kind + "/" + errSite(res.err)
+	w.st.Probes["error-site:"+sigTail]++
 	if fp2 != nil {
 		w.st.Probes["fault-pairs-judged"]++
 	}
@@ -439,8 +447,9 @@ func (w *World) runFault() {
 	// Half of the runs do not retry at once but carry on with other operations: state that is not
 	// directly observable (size thresholds, flags) must be what it was, or the heights the tree
 	// takes from here on stop being the canonical ones. (An immediate retry can heal such state.)
-	if (w.extra["fault_index"]+len(w.sc.Ops))%2 == 0 && !w.cfg.InMemory {
-		if w.latentCheck(tr, sigTail) {
+	latentFirst := (w.extra["fault_index"]+len(w.sc.Ops))%2 == 0
+	if latentFirst && !w.cfg.InMemory {
+		if w.latentCheck(tr, op, sigTail) {
 			w.finish()
 			return
 		}
@@ -452,6 +461,11 @@ func (w *World) runFault() {
 		w.st.Truncated = ""
 		w.fail("retry-after-fault-fails/"+sigTail, "retrying %s after %s#%d cleared did not give the normal result: %s", op.K, fp.kind, fp.idx, tr)
 	}
+	if !latentFirst && !w.cfg.InMemory && w.viol == nil && w.st.Truncated == "" && (op.K == "ins" || op.K == "del") {
+		// the other half: the retry first, then the same continuation (a retry that "heals" what
+		// it can see may still leave the hidden state behind)
+		w.latentCheck(tr, nil, sigTail+"/after-retry")
+	}
 	w.finish()
 }
 
@@ -461,6 +475,11 @@ func (w *World) runFault() {
 func (w *World) cursorUnderFault(op *Op, t *Tree, fp faultPoint) {
 	all := w.modelObs(t.model)
 	n := len(all)
+	if h := int(t.m.Height()); h >= 5 {
+		w.st.Probes["cursor-under-fault-on-tree-of-height-5-or-more"]++
+	} else {
+		w.st.Probes[fmt.Sprintf("cursor-under-fault-on-tree-of-height-%d", h)]++
+	}
 	w.armFault(fp)
 	defer w.disarm()
 	var c *mast.Cursor
@@ -565,7 +584,7 @@ func (w *World) cursorUnderFault(op *Op, t *Tree, fp faultPoint) {
 
 // latentCheck continues after a failed (and apparently harmless) operation with a few ordinary
 // operations and compares the tree's height with the height the size rule gives for its contents.
-func (w *World) latentCheck(t *Tree, sigTail string) bool {
+func (w *World) latentCheck(t *Tree, op *Op, sigTail string) bool {
 	w.st.Probes["latent-state-continuations"]++
 	refH := func() int {
 		maxL := 0
@@ -586,52 +605,69 @@ func (w *World) latentCheck(t *Tree, sigTail string) bool {
 	if check("nothing else") {
 		return true
 	}
-	// delete the smallest and the largest entry, insert the absent key of the highest layer
-	for step := 0; step < 4; step++ {
-		es := t.model.Entries()
-		var r callResult
-		what := ""
-		switch {
-		case step == 0 && len(es) > 0:
-			e := es[0]
-			what = "deleting the smallest entry"
-			r = guard(func() error { return t.m.Delete(ctx, w.kd.Key(e.K), w.vd.Val(e.V)) })
-			if !r.bad() {
-				t.model.Del(e.K)
-			}
-		case step == 1 && len(es) > 0:
-			e := es[len(es)-1]
-			what = "deleting the largest entry"
-			r = guard(func() error { return t.m.Delete(ctx, w.kd.Key(e.K), w.vd.Val(e.V)) })
-			if !r.bad() {
-				t.model.Del(e.K)
-			}
-		case step >= 2:
-			best, bk := -1, -1
-			for k := 0; k < w.cfg.U && k < 400; k++ {
-				if _, ok := t.model.Get(k); ok {
-					continue
-				}
-				if l := w.layerOf(k); l > best {
-					best, bk = l, k
-				}
-			}
-			if bk < 0 {
-				return false
-			}
-			what = "inserting an absent high-layer key"
-			r = guard(func() error { return t.m.Insert(ctx, w.kd.Key(bk), w.vd.Val(1)) })
-			if !r.bad() {
-				t.model.Put(bk, 1)
-			}
-		default:
-			continue
-		}
+	// a few ordinary operations, none of them on the key of the failed operation (operating on
+	// that key again is the retry, which can heal such state): delete from both ends down to a
+	// handful of entries, then insert absent keys of the highest layers
+	skip := -1
+	if op != nil && (op.K == "ins" || op.K == "del") {
+		skip = op.Key
+	}
+	apply := func(what string, call func() error, onOK func()) (stop, viol bool) {
+		r := guard(call)
 		if r.bad() {
-			return false // an ordinary failure here is not this oracle's business
+			return true, false // an ordinary failure here is not this oracle's business
 		}
+		onOK()
 		if check(what) {
+			return true, true
+		}
+		return false, false
+	}
+	for step := 0; step < 8; step++ {
+		es := t.model.Entries()
+		if len(es) <= 2 {
+			break
+		}
+		e := es[len(es)-1]
+		what := "deleting the largest entry"
+		if step%2 == 1 {
+			e = es[0]
+			what = "deleting the smallest entry"
+		}
+		if e.K == skip {
+			if step%2 == 1 {
+				e = es[1]
+			} else {
+				e = es[len(es)-2]
+			}
+		}
+		stop, viol := apply(fmt.Sprintf("%s (step %d)", what, step), func() error { return t.m.Delete(ctx, w.kd.Key(e.K), w.vd.Val(e.V)) }, func() { t.model.Del(e.K) })
+		if viol {
 			return true
+		}
+		if stop {
+			return false
+		}
+	}
+	for step := 0; step < 3; step++ {
+		best, bk := -1, -1
+		for k := 0; k < w.cfg.U && k < 400; k++ {
+			if _, ok := t.model.Get(k); ok || k == skip {
+				continue
+			}
+			if l := w.layerOf(k); l > best {
+				best, bk = l, k
+			}
+		}
+		if bk < 0 {
+			return false
+		}
+		stop, viol := apply("inserting an absent high-layer key", func() error { return t.m.Insert(ctx, w.kd.Key(bk), w.vd.Val(1)) }, func() { t.model.Put(bk, 1) })
+		if viol {
+			return true
+		}
+		if stop {
+			return false
 		}
 	}
 	return false
@@ -645,6 +681,15 @@ func errSite(err error) string {
 			break
 		}
 	}
+	// a node name in the wrap ("persist load <name>", "node <name>") is not part of the site
+	words := strings.Fields(msg)
+	for i, wd := range words {
+		if len(wd) >= 30 {
+			words = words[:i]
+			break
+		}
+	}
+	msg = strings.Join(words, " ")
 	out := make([]byte, 0, len(msg))
 	for i := 0; i < len(msg) && len(out) < 24; i++ {
 		c := msg[i]
@@ -751,11 +796,11 @@ outer:
 			}
 			for _, kc := range kinds {
 				cnt := kc.count
-				// cap per kind per op: every Load / Unmarshal call up to 24, the first 10 compare /
+				// cap per kind per op: every Load / Unmarshal call up to 24, the first 6 compare /
 				// marshal calls (there are many more of those and they exercise the same few sites)
 				lim := 24
 				if kc.kind == 2 || kc.kind == 3 {
-					lim = 10
+					lim = 6
 				}
 				if cnt > lim {
 					cnt = lim
@@ -816,7 +861,7 @@ outer:
 func init() {
 	extraEngines["faultenum"] = RunFaultEnumShard
 	extraReplayers["faultenum"] = RunFaultScenario
-	profiles["C12"] = map[string]int{"ins": 30, "del": 16, "get": 8, "iter": 3, "seek": 4, "diff": 5, "clone": 3, "cur": 5, "persist": 10, "reload": 10, "fork": 3, "restart": 2}
+	profiles["C12"] = map[string]int{"ins": 30, "del": 16, "get": 8, "iter": 3, "seek": 4, "diff": 5, "clone": 3, "cur": 5, "persist": 10, "reload": 10, "fork": 3, "restart": 2, "bulk": 2}
 	propTable["C12"] = PropInfo{Engine: "faultenum", Level: "fault_enumeration", QuickS: 24, ThorS: 600,
 		Rule: "one evaluation = one execution of (history prefix, covered op) — either a fault-free counting run or a run with exactly one seam call of that op failing (Persist.Load error / not-found, KeyCompare, Marshal, Unmarshal at call index i, every i up to 24 per kind); non-trivial = the fault fired and the op returned an error (so the unchanged-tree and retry oracles were evaluated) or absorbed it; distinct = hash of (config, prefix op kinds/keys, fault kind, call index)",
 		Assumptions: []string{"every single fault per operation is enumerated (first 24 call indexes per kind); pairs of faults of different kinds are sampled (6 per op)", "a panic under an injected fault is counted, not reported: the property speaks of calls that return an error"},
